@@ -62,11 +62,6 @@ structure State where
 
 def inAlpha (alpha : List Nat) (s : Str) : Bool := s.all fun c => alpha.any (Nat.beq c)
 
-def addToMap (m : List (Str × List Word)) (key : Str) (w : Word) : List (Str × List Word) :=
-  if m.any (fun p => Kkc.beqStr p.1 key) then
-    m.map fun p => if Kkc.beqStr p.1 key then (p.1, p.2 ++ [w]) else p
-  else m ++ [(key, [w])]
-
 /-- `trie.insert(&reading)` (ignored `Err`) + `map.entry(reading).push(word)` on the standard dictionary. -/
 def addStdWord (alpha : List Nat) (d : Dict) (w : Word) : Dict :=
   { d with
